@@ -223,6 +223,9 @@ class Sym:
         return r if r is NotImplemented else not r
 
     def _cmp(self, o):
+        if self.p.is_const() and isinstance(o, (int, float, np.floating, np.integer)):
+            # constant vs number: plain numeric comparison (tolerance tests such as allclose)
+            return complex(self.p.const_value()).real - float(o)
         w = _const_poly(o)
         if w is NotImplemented:
             return NotImplemented
@@ -353,3 +356,67 @@ def pm_params(a):
     for x in a.flat:
         s |= x.params()
     return s
+
+
+def _sym_array_ufunc(self, ufunc, method, *inputs, **kwargs):
+    """object-dtype ufunc dispatch for SymArray/SymArrayC: finiteness tests answer for exact values, everything else is
+    numpy's own object loop on the underlying array (result re-viewed as the symbolic subclass)."""
+    base = [np.asarray(x, dtype=object) if isinstance(x, (SymArray, SymArrayC)) else x for x in inputs]
+    if ufunc is np.isfinite and method == "__call__":
+        return np.ones(np.shape(base[0]), dtype=bool)
+    if ufunc in (np.isnan, np.isinf) and method == "__call__":
+        return np.zeros(np.shape(base[0]), dtype=bool)
+    if "out" in kwargs:
+        kwargs["out"] = tuple(np.asarray(o, dtype=object) if isinstance(o, (SymArray, SymArrayC)) else o for o in kwargs["out"])
+    res = getattr(ufunc, method)(*base, **kwargs)
+    if isinstance(res, np.ndarray) and res.dtype == object:
+        return res.view(type(self))
+    return res
+
+
+class SymArray(np.ndarray):
+    """object ndarray of Sym that advertises float64 to dtype *inspection* (Operator2 validates argument dtypes);
+    numpy itself still treats it as an object array, so every operation stays exact."""
+
+    @property
+    def dtype(self):
+        return np.dtype("float64")
+
+    __array_ufunc__ = _sym_array_ufunc
+
+    def astype(self, dtype=None, *a, **k):
+        # casting a symbolic batch to float/complex keeps it symbolic (A-float-as-real)
+        if dtype is not None and np.dtype(dtype).kind in "fc":
+            return self
+        return np.asarray(self, dtype=object).astype(dtype, *a, **k)
+
+
+def symarray(xs):
+    a = np.empty(len(xs), dtype=object)
+    for i, x in enumerate(xs):
+        a[i] = x
+    return a.view(SymArray)
+
+
+class SymArrayC(np.ndarray):
+    """as SymArray, advertising complex128 (matrix-valued operator data)"""
+
+    @property
+    def dtype(self):
+        return np.dtype("complex128")
+
+    __array_ufunc__ = _sym_array_ufunc
+
+    def astype(self, dtype=None, *a, **k):
+        if dtype is not None and np.dtype(dtype).kind in "fc":
+            return self
+        return np.asarray(self, dtype=object).astype(dtype, *a, **k)
+
+
+def symarray_c(xs, shape=None):
+    a = np.empty(len(xs), dtype=object)
+    for i, x in enumerate(xs):
+        a[i] = x
+    if shape is not None:
+        a = a.reshape(shape)
+    return a.view(SymArrayC)
